@@ -1,25 +1,32 @@
 (** C11 - The append-only file is a faithful redo log.
     Statements only; proofs in Proofs/AofFacts.v and Proofs/AofTimeFacts.v.  Model: Model/Aof.v
-    (the bytes of the file, redo, start-up as the code has it) on top of Model/Server.v, whose
-    [s_aof] is appended by process_normal_command BEFORE dispatch whenever the upper-cased
-    command name is in [Generated.write_commands] (regenerated from server.rs
-    is_write_command on every run), whatever the outcome, preceded by a [SELECT db] record when
-    the database differs from that of the last command written (7ef6fad).
+    (the bytes of the file, redo, start-up) on top of Model/Server.v, whose [s_aof] receives
+      - the command AS IT WAS SENT, before it runs, when its upper-cased name is in
+        [Generated.write_commands] (regenerated from server.rs is_write_command on every run) -
+        except SPOP and XADD with the ID *, which are written AFTER they ran as the deterministic
+        command they amounted to (SREM key members / XADD with the generated ID; f085462), and
+        EVALSHA, which is written as the EVAL of the cached script (a8393c5, Model/RunLua.v);
+      - `PEXPIREAT key deadline` after SET / SETEX / PSETEX / EXPIRE / PEXPIRE that did not
+        answer an error, when the key then carries a deadline (98d0d1a): an absolute time;
+      - LPOP key / RPOP key when a BLPOP / BRPOP is served, at once or by a later push
+        (293eff6, Model/Blocking.v);
+    each preceded by a `SELECT db` record when the database differs from that of the last
+    record (7ef6fad).  At start-up the records are run again, in order (831b342, [restart_o]).
 
-    Repaired in /repo since the first round (their witnesses are regression cases in
-    corpus/C11, and [c11_repaired_classes_replay] below): the four unlogged writers GETSET,
-    HMSET, PEXPIRE, XREADGROUP (8d99f01); no SELECT in the log (7ef6fad); start-up abort on a
-    file that is not UTF-8 (39510e9).
-    Still REFUTED, each class with a witness theorem here and a witness replayed on the binary
-    (known_findings.json):
-      expired-unlogged       lazy removal of an expired key is not logged; TTLs are logged relative
-      random-verbatim        SPOP and XADD * are logged as sent, not as their outcome
-      startup-replay-noop    AofEngine::load executes nothing: the dataset is empty after a restart
-      evalsha-by-hash        EVALSHA is logged by hash, SCRIPT LOAD is not logged (binary witness;
-                             the script cache lives in the runner, Model/RunLua.v)
-      unlogged-blocking-pop  pops served by BLPOP/BRPOP are not logged (binary witness only) *)
-From Ferrous Require Import Base.Bytes Generated Model.Resp Model.Types Model.Strings Model.Server
-  Model.Conn Model.Aof Proofs.ConnFacts Proofs.ServerFacts Proofs.AofFacts Proofs.AofTimeFacts.
+    All eleven classes found by this property are repaired in /repo (their witnesses are
+    regression cases in corpus/C11).  What remains, each with a witness here and in
+    known_findings.json:
+      expiry-unlogged            no record is written when a key expires: a command that ran while
+                                 a key was alive, redone after the key's deadline, acts on another
+                                 dataset ([c11_expiry_unlogged_refuted]).  This is exactly the
+                                 hypothesis [timed_run] of the any-time theorem: no deadline of the
+                                 live run has passed at the time of the redo.
+      startup-executor-differs   start-up runs the records through the command executor, not
+                                 through the handlers that ran them live (binary witness; the
+                                 model's [restart_o] uses the handlers) *)
+From Ferrous Require Import Base.Bytes Generated Model.Resp Model.Types Model.Strings Model.Lists Model.Streams
+  Model.Server Model.Conn Model.Blocking Model.RunLua Model.Aof Proofs.ConnFacts Proofs.ServerFacts Proofs.StreamFacts
+  Proofs.AofFacts Proofs.AofTimeFacts.
 Open Scope Z_scope.
 
 (** ---- 1. the file is at all times a sequence of complete RESP command frames ---- *)
@@ -40,194 +47,291 @@ Theorem c11_bulk_commands_are_wire :
   forall args, len args <= i64_max -> Forall (fun a => len a <= i64_max) args -> wire_cmd (map FBulk args).
 Proof. exact bulk_cmd_wire. Qed.
 
-(** ---- 2. logging discipline: once, in execution order, decided by the table ---- *)
-(** process_normal_command appends the command exactly once iff its name is in the
-    generated table - before dispatch, so whether or not it then succeeds - with a SELECT
-    record in front when the database changed ([aof_push]). *)
-Theorem c11_logged_once_by_table :
+(** ---- 2. logging discipline: what one command leaves in the file ---- *)
+(** process_normal_command appends [cmd_recs] - a function of the command, its reply and the
+    database it left - under the database it ran in ([push_recs]: a SELECT record in front when
+    the database changed), whatever the command answers. *)
+Theorem c11_records_of_a_command :
   forall now s c dbi parts o,
-  s_aof (snd (normal_command now s c dbi parts o)) =
-  if is_logged parts then aof_push (s_aof s) dbi parts else s_aof s.
+  s_aof (snd (normal_command now s c dbi parts o)) = push_recs (s_aof s) dbi (cmd_recs now (s_dbs s) dbi parts o).
 Proof. exact nc_aof. Qed.
-(** EXEC appends the queued write commands in queue order, each once, each under the database
-    it ran in: [queue_dbs dbi q] pairs every queued command with its database - a queued SELECT
-    (it takes effect at EXEC since 1ecc022) moves the commands after it, and [push_all] puts the
-    SELECT record in front of the first write in the new database.  (A DISCARDed or WATCH-aborted
-    queue is never run, C07, hence never logged.)  [linv]: no password, no connection id 0. *)
+(** [cmd_recs]: the command as it was sent iff [is_logged] (in the table, not by outcome, not
+    EVALSHA) - BEFORE it runs, so whether or not it succeeds - then the records of its outcome *)
+Theorem c11_records_shape :
+  forall now dbs dbi nm rest o,
+  cmd_recs now dbs dbi (FBulk nm :: rest) o =
+  verb_recs (FBulk nm :: rest) ++ dout_recs now (pre_dbs now dbs dbi (upper nm) (FBulk nm :: rest)) dbi (FBulk nm :: rest) o.
+Proof. exact cmd_recs_split. Qed.
+Theorem c11_sent_record : forall p, verb_recs p = if is_logged p then [p] else [].
+Proof. exact verb_recs_spec. Qed.
+(** the records of the outcome, given the reply [r] and the database [d'] the command left:
+    [out_recs] = the deterministic form of SPOP / XADD * (nothing for a nil, empty or error
+    reply), then PEXPIREAT key (clock + remaining time) after the five TTL commands *)
+Theorem c11_outcome_records :
+  forall now dbs dbi nm rest o, special8 (upper nm) = false ->
+  dout_recs now dbs dbi (FBulk nm :: rest) o =
+  match exec_db now (nth (Z.to_nat dbi) dbs empty_db) (upper nm) (FBulk nm :: rest) o with
+  | Some (r, d') => out_recs now d' (upper nm) (FBulk nm :: rest) r
+  | None => []
+  end.
+Proof. exact dout_exec. Qed.
+(** every record is a write command by name (what a reader of the file has to execute), never
+    mistaken for the engine's SELECT record *)
+Theorem c11_records_are_write_commands :
+  forall t d x, Forall (fun po => is_write (fst po) = true) (xorecs t d x).
+Proof. exact xorecs_writes. Qed.
+(** EXEC runs the queued commands in queue order, each in its database - a queued SELECT (it
+    takes effect at EXEC since 1ecc022) moves the commands after it - and each leaves its
+    records as above ([run_items]: databases and log, one command after the other).  (A
+    DISCARDed or WATCH-aborted queue is never run, C07, hence never logged.)  [linv]: no
+    password, no connection id 0. *)
 Theorem c11_exec_logs_in_order :
   forall now c q s dbi acc cn,
   linv s -> zlookup c (s_conns s) = Some cn -> c_db cn = dbi ->
-  s_aof (snd (exec_queue now s c dbi q acc)) = push_all (s_aof s) (queue_dbs dbi q).
-Proof. exact exec_queue_aof. Qed.
-(** witness: MULTI; SET a 1; SELECT 1; SET b 2; GET b; EXEC; APPEND b 3 - five records, SELECT 1
-    between the two SETs, and the redo reproduces all databases *)
-Example c11_queued_select :
-  forallb (fun te => ev_ok (snd te)) queued_select_history = true /\
-  live_fresh (trace_of queued_select_history) dbs0 = true /\
-  redo_fresh 0 (aof_log (run_tevs queued_select_history)) (0, dbs0) = true /\
-  aof_log (run_tevs queued_select_history) =
-    [aof_select 0; [FBulk (bs "SET"); FBulk (bs "a"); FBulk (bs "1")];
-     aof_select 1; [FBulk (bs "SET"); FBulk (bs "b"); FBulk (bs "2")]; [FBulk (bs "APPEND"); FBulk (bs "b"); FBulk (bs "3")]] /\
-  s_dbs (replay 0 (aof_log (run_tevs queued_select_history))) = s_dbs (run_tevs queued_select_history) /\
-  len (d_data (get_db (run_tevs queued_select_history) 1)) = 1.
-Proof. exact queued_select_history_ok. Qed.
-(** The file of a whole history - any connections, databases, transactions - is exactly the
-    records of its executed commands [trace_of h] (each with the database it ran in): the
-    logged ones in execution order, each once, a SELECT record wherever the database changes. *)
+  st_of (snd (exec_queue now s c dbi q acc)) = run_items now (queue_items dbi q) (st_of s).
+Proof. exact exec_queue_state. Qed.
+(** EVALSHA of a cached script leaves exactly the record of the EVAL of that script (whose effect
+    is the EVALSHA's: Props/C12.v c12_evalsha_is_eval); a digest that names no script leaves
+    nothing and changes nothing *)
+Theorem c11_evalsha_logged_as_eval :
+  forall t s c dbi ca nm h nk rest sha src,
+  str_arg h = Some sha -> alookup (lower sha) ca = Some src ->
+  s_aof (snd (h_evalsha t s c dbi ca (FBulk nm :: h :: nk :: rest))) =
+  aof_push (s_aof s) dbi (FBulk (bs "EVAL") :: FBulk src :: nk :: rest).
+Proof. exact evalsha_record. Qed.
+Theorem c11_evalsha_unknown_not_logged :
+  forall t s c dbi ca nm h nk rest sha,
+  str_arg h = Some sha -> alookup (lower sha) ca = None ->
+  snd (h_evalsha t s c dbi ca (FBulk nm :: h :: nk :: rest)) = s.
+Proof. exact evalsha_unknown. Qed.
+
+(** ---- 3. a served blocking pop is in the file once, where it happened ---- *)
+(** [served_pop]: the element leaves the list and LPOP / RPOP key is appended under the client's
+    database; as an event of a history ([EServed]) it is one executed command, the pop itself,
+    in execution order - and nothing when there is no element *)
+Theorem c11_served_pop_is_one_command :
+  forall now s dbi lf k, linv s ->
+  st_of (served_pop s dbi lf k) = run_items now (ev_items now s (EServed dbi lf k)) (st_of s).
+Proof. exact served_pop_state. Qed.
+Theorem c11_served_pop_record : forall now dbs dbi lf k, dcmd_recs now dbs dbi (pop_cmd lf k) None = [pop_cmd lf k].
+Proof. exact pop_recs. Qed.
+(** the wake-up of a waiting client by a push (Model/Blocking.v wake_client, delivery; the key has
+    not expired) is that event; whatever a wake-up does - deliver from the key, deliver from
+    another key of the client, put the element back, register the client again - it appends at
+    most one record, the pop of the key that served the client *)
+Theorem c11_wakeup_is_served_pop :
+  forall now s b u v d' cst,
+  was_expired now (get_db s (u_db u)) (u_key u) = false ->
+  on_key (get_db s (u_db u)) (u_key u) (e_pop (u_left u)) = (FBulk v, d') ->
+  zlookup (u_conn u) (b_blk b) = Some cst ->
+  fst (wake_client now s b u) = served_pop s (u_db u) (u_left u) (u_key u).
+Proof. exact wake_client_served. Qed.
+Theorem c11_wakeup_logs_at_most_one_pop :
+  forall now s b u,
+  s_aof (fst (wake_client now s b u)) = s_aof s \/
+  exists lf k, s_aof (fst (wake_client now s b u)) = aof_push (s_aof s) (u_db u) (pop_cmd lf k).
+Proof. exact wake_client_log. Qed.
+(** BLPOP / BRPOP that finds an element at once is that event for the key that served it; one
+    that finds none (and blocks, or answers nil inside EXEC) changes neither databases nor log *)
+Theorem c11_blocking_pop_immediate :
+  forall (lf : bool) now s b c dbi parts oms,
+  no_empty_list (get_db s dbi) ->
+  let s' := snd (fst (h_bpop lf now s b c dbi parts oms)) in
+  (exists k v d', fst (fst (h_bpop lf now s b c dbi parts oms)) = FArray [FBulk k; FBulk v] /\
+                  on_key (get_db s dbi) k (e_pop lf) = (FBulk v, d') /\
+                  s' = served_pop s dbi lf k) \/
+  st_of s' = st_of s.
+Proof. exact bpop_immediate. Qed.
+
+(** ---- 4. the file of a history ---- *)
+(** Events with a clock reading each (connections opening and closing, request frames with the
+    oracle of their random choice, pops served to waiting clients) on a password-less server:
+    the file is the records of the executed commands in execution order ([trecs]: per command
+    its records, each group under its database) - direct commands, the queue of every EXEC that
+    ran, served pops. *)
 Theorem c11_file_of_a_history :
   forall h, forallb (fun te => ev_ok (snd te)) h = true ->
-  aof_log (run_tevs h) = recs None (map snd (trace_of h)).
+  aof_log (run_tevs h) = map fst (trecs (trace_of h) dbs0 None).
 Proof. exact history_file. Qed.
+Theorem c11_databases_of_a_history :
+  forall h, forallb (fun te => ev_ok (snd te)) h = true ->
+  s_dbs (run_tevs h) = fst (run_trace (trace_of h) (dbs0, [])).
+Proof. exact history_dbs. Qed.
 
-(** ---- 3. completeness of the table ---- *)
-(** Every command of the modelled dispatch (string/key family, lists/sets/hashes, sorted
-    sets, streams/groups, SCAN family, scripts) whose name is NOT in
-    [Generated.write_commands] leaves the database unchanged up to lazy removal of
-    already-expired entries - without exception since 8d99f01.  The proof walks the dispatchers
-    name by name and evaluates the generated table at each: deleting a name from the Rust
-    [matches!] breaks it at that name. *)
+(** ---- 5. completeness of the table: what is not written changes nothing ---- *)
+(** THE OBLIGATION over the generated table: a command of the modelled dispatch (strings/keys,
+    lists/sets/hashes, sorted sets, streams/groups, SCAN family, scripts, PEXPIREAT) whose name
+    is NOT in [Generated.write_commands] leaves the database as it was up to the lazy removal
+    of entries that had already expired ([lazy_removed]).  No exception.  Removing a name from
+    the Rust matches! breaks this proof at that name's branch. *)
 Theorem c11_unlogged_commands_inert :
   forall now d name parts o r d',
   mem_name name write_commands = false ->
   exec_db now d name parts o = Some (r, d') -> lazy_removed now d d'.
 Proof. exact exec_db_inert. Qed.
-(** ... and exactly unchanged when no entry has expired *)
 Theorem c11_unlogged_commands_inert_exact :
-  forall now d name parts o r d',
-  mem_name name write_commands = false ->
-  fresh now d = true -> exec_db now d name parts o = Some (r, d') -> d' = d.
-Proof. exact exec_db_inert_fresh. Qed.
+  forall now dbs dbi parts o,
+  is_write parts = false -> lfresh_all now dbs -> step_dbs now dbs dbi parts o = dbs.
+Proof. exact step_dbs_unlogged. Qed.
+(** SPOP that returned nothing and XADD * that was refused leave no record - and no change *)
+Theorem c11_spop_without_record :
+  forall d parts o r d',
+  h_spop d parts o = (r, d') -> deterministic_form (bs "SPOP") parts r = None -> ext d' d.
+Proof. exact spop_quiet. Qed.
+Theorem c11_xadd_without_record :
+  forall d parts o r d',
+  by_outcome (bs "XADD") parts = true -> h_xadd d parts o = (r, d') ->
+  deterministic_form (bs "XADD") parts r = None -> d' = d.
+Proof. exact xadd_quiet. Qed.
 
-(** ---- 4. the replay theorem ---- *)
-(** For EVERY history - any number of connections, connects and disconnects, SELECT of any
-    database, commands sent directly or queued under MULTI and run by EXEC (or dropped by
-    DISCARD / a WATCH abort), valid or refused, EVAL scripts included - whose commands are in
-    the domain [cmd_ok] (not SPOP, not XADD with an auto ID, not EVALSHA) and in which nothing
-    has expired at the moment a command runs (live: [live_fresh]; in the redo: [redo_fresh];
-    e.g. no zero TTL), re-executing the file in order on an empty server yields ALL SIXTEEN
-    databases of the live server: same keys, same values, same deadlines.
-    Clock: here every event and the redo are taken at one clock reading [now] (any);
-    c11_replay_any_time below lets every event and the redo have their own reading and concludes
-    equality of [dataset] (values and TTL presence; deadlines are logged as relative TTLs).
-    Oracles: events carry none, so commands whose model semantics needs one - SPOP, XADD *, and
-    ZADD / ZINCRBY / score bounds (the f64 value of a score text) - answer an error and change
-    nothing on both sides; for sorted sets the differential replay supplies the same oracle
-    to both sides. *)
+(** ---- 6. random outcomes replay to the same outcome ---- *)
+(** the SREM record of an SPOP does to the database exactly what the SPOP did - whichever
+    members the implementation drew (the oracle [o]) *)
+Theorem c11_spop_is_the_srem_of_its_reply :
+  forall d parts o r d' p,
+  h_spop d parts o = (r, d') -> deterministic_form (bs "SPOP") parts r = Some p ->
+  snd (h_skipping e_srem d p) = d'.
+Proof. exact spop_as_srem. Qed.
+(** the XADD record with the generated ID does what XADD * did, on a stream that satisfies the
+    stream invariant of C15 ([stream_fit]: Proofs/StreamFacts.v SInv - it makes every generated
+    ID exceed the last one, which is what XADD with an explicit ID demands) *)
+Theorem c11_xadd_auto_is_the_xadd_of_its_id :
+  forall d parts o r d' p,
+  by_outcome (bs "XADD") parts = true ->
+  (forall k, nth_error parts 1 = Some (FBulk k) -> stream_fit d k) ->
+  h_xadd d parts o = (r, d') -> deterministic_form (bs "XADD") parts r = Some p ->
+  snd (h_xadd d p None) = d'.
+Proof. exact xadd_auto_as_explicit. Qed.
+
+(** ---- 7. deadlines are absolute ---- *)
+(** One TTL command run live at clock reading [t] and redone, with its PEXPIREAT record, at any
+    later reading [now']: every key ends up with the same value and the SAME DEADLINE ([sims] =
+    lookup-equivalence of the sixteen databases) - provided the state the live command left is
+    without entries that are expired at [now'] (the deadline it set has not passed) and the
+    deadline fits the i64 the reader parses. *)
+Theorem c11_ttl_command_with_its_deadline_record :
+  forall t now' d1 d2 dbi nm rest o,
+  t <= now' -> ttl_recorded (upper nm) = true -> sims d1 d2 -> lfresh_all t d1 -> lfresh_all now' d2 ->
+  lfresh_all now' (step_dbs t d1 dbi (FBulk nm :: rest) o) ->
+  (forall k rem, nth_error (FBulk nm :: rest) 1 = Some (FBulk k) ->
+     eng_ttl t (nth (Z.to_nat dbi) (step_dbs t d1 dbi (FBulk nm :: rest) o) empty_db) k = Some rem -> in_i64 (t + rem) = true) ->
+  sims (step_dbs t d1 dbi (FBulk nm :: rest) o)
+       (redo_dbs now' dbi ((FBulk nm :: rest, o) :: map (fun r => (r, None)) (dout_recs t d1 dbi (FBulk nm :: rest) o)) d2).
+Proof. exact item_ttl. Qed.
+
+(** ---- 8. the replay theorems ---- *)
+(** (a) ANY LATER CLOCK READING.  For every history whose clock readings are at most [now'],
+    whose executed commands are in the clock-independent part ([timeless]: everything except
+    the consumer-group commands, the sorted-set writes and scripts), and in which NO DEADLINE
+    HAS PASSED AT [now'] ([timed_run]: every state the live server went through is without
+    entries expired at the time of the redo; the deadlines fit an i64), with XADD * only on
+    streams that satisfy the stream invariant ([fits_run]): the redo of the file at [now'] has,
+    in every one of the sixteen databases, for every key, the same value and the same deadline
+    as the live server.  No hypothesis on the live run's own clock readings beyond that.
+    The oracles of [trecs] are those of the events (outcome and deadline records need none). *)
+Theorem c11_replay_any_time :
+  forall now' h,
+  forallb (fun te => ev_ok (snd te)) h = true ->
+  timed_run now' (trace_of h) dbs0 = true -> fits_run (trace_of h) dbs0 ->
+  aof_log (run_tevs h) = map fst (trecs (trace_of h) dbs0 None) /\
+  forall i k, get_entry (nth i (s_dbs (replay_o now' (trecs (trace_of h) dbs0 None))) empty_db) k =
+              get_entry (nth i (s_dbs (run_tevs h)) empty_db) k.
+Proof. exact replay_any_time. Qed.
+(** the same with every side condition a computable check *)
+Theorem c11_replay_any_time_checked :
+  forall now' h,
+  forallb (fun te => ev_ok (snd te)) h = true ->
+  timed_run now' (trace_of h) dbs0 = true -> fits_b (trace_of h) dbs0 = true ->
+  aof_log (run_tevs h) = map fst (trecs (trace_of h) dbs0 None) /\
+  forall i k, get_entry (nth i (s_dbs (replay_o now' (trecs (trace_of h) dbs0 None))) empty_db) k =
+              get_entry (nth i (s_dbs (run_tevs h)) empty_db) k.
+Proof. exact replay_any_time_b. Qed.
+(** (b) ONE CLOCK READING, for the commands whose effect depends on the clock in ways the file does
+    not record (EVAL: TTLs set inside a script; XREADGROUP / XCLAIM: the delivery time of a
+    pending entry) and every other command that is logged as it was sent and leaves no other
+    record ([plain_run]): redone at the clock reading of the live run, on databases without
+    expired entries, the sixteen databases are EQUAL. *)
 Theorem c11_replay :
   forall now h,
   forallb (fun te => ev_ok (snd te)) h = true ->
-  forallb (fun te => fst te =? now) h = true ->
-  live_fresh (trace_of h) dbs0 = true ->
-  redo_fresh now (aof_log (run_tevs h)) (0, dbs0) = true ->
-  s_dbs (replay now (aof_log (run_tevs h))) = s_dbs (run_tevs h).
+  plain_run now (trace_of h) dbs0 = true ->
+  aof_log (run_tevs h) = map fst (trecs (trace_of h) dbs0 None) /\
+  s_dbs (replay_o now (trecs (trace_of h) dbs0 None)) = s_dbs (run_tevs h).
 Proof. exact replay_all_dbs. Qed.
-Theorem c11_replay_dataset :
-  forall now h,
-  forallb (fun te => ev_ok (snd te)) h = true ->
-  forallb (fun te => fst te =? now) h = true ->
-  live_fresh (trace_of h) dbs0 = true ->
-  redo_fresh now (aof_log (run_tevs h)) (0, dbs0) = true ->
-  map dataset (s_dbs (replay now (aof_log (run_tevs h)))) = map dataset (s_dbs (run_tevs h)).
-Proof. exact replay_datasets. Qed.
-(** non-vacuity: two connections in databases 0 and 3, a transaction containing a refused
-    command, a read, TTLs, a stream, a pop - hypotheses hold, twelve records in the file *)
-Example c11_replay_sample :
-  forallb (fun te => ev_ok (snd te)) sample_history = true /\
-  forallb (fun te => fst te =? 7) sample_history = true /\
-  live_fresh (trace_of sample_history) dbs0 = true /\
-  redo_fresh 7 (aof_log (run_tevs sample_history)) (0, dbs0) = true /\
-  len (aof_log (run_tevs sample_history)) = 12 /\ len (d_data (get_db (run_tevs sample_history) 3)) = 2.
-Proof. exact sample_history_ok. Qed.
-(** regression of the repaired classes: GETSET, HMSET, PEXPIRE, XREADGROUP and commands in
-    databases 1 and 15 are in the domain, and this history replays exactly (14 records) *)
-Example c11_repaired_classes_replay :
-  forallb (fun te => ev_ok (snd te)) repaired_history = true /\
-  live_fresh (trace_of repaired_history) dbs0 = true /\
-  redo_fresh 0 (aof_log (run_tevs repaired_history)) (0, dbs0) = true /\
-  len (aof_log (run_tevs repaired_history)) = 14 /\
-  s_dbs (replay 0 (aof_log (run_tevs repaired_history))) = s_dbs (run_tevs repaired_history) /\
-  len (d_data (get_db (run_tevs repaired_history) 1)) = 2.
-Proof. exact repaired_history_ok. Qed.
-
-(** ---- 4b. the replay theorem with a clock ---- *)
-(** One command at two clock readings: on lists of databases that agree on keys, values and
-    TTL presence ([sims]) and hold no expired entry at their respective readings, every
-    command outside [untimed_excluded] yields databases that agree again - all 29 string/key
-    commands, all 31 list/set/hash commands, XADD / XTRIM / XDEL, every read of every family,
-    FLUSHALL.  Excluded: XGROUP, XREADGROUP, XACK, XCLAIM (they stamp the clock into pending
-    entries), and the sorted-set writes and scripts (no per-handler proof here). *)
-Theorem c11_clock_invisible_without_expiry :
-  forall t1 t2 a b dbi parts o,
-  mem_name (cmd_name parts) untimed_excluded = false ->
-  sims a b -> fresh_all t1 a = true -> fresh_all t2 b = true ->
-  sims (step_dbs t1 a dbi parts o) (step_dbs t2 b dbi parts o).
-Proof. exact step_dbs_sim. Qed.
-(** For EVERY history with a clock reading per event (as in c11_replay) whose executed
-    commands are outside [untimed_excluded], and a redo at ANY reading [now']: if nothing has
-    expired at the moment a command runs - live and in the redo - re-executing the file yields
-    the live dataset of all sixteen databases: same keys, same values, same TTL presence. *)
-Theorem c11_replay_any_time :
-  forall h now',
-  forallb (fun te => ev_ok (snd te)) h = true ->
-  forallb timeless (trace_of h) = true ->
-  live_fresh (trace_of h) dbs0 = true ->
-  redo_fresh now' (aof_log (run_tevs h)) (0, dbs0) = true ->
-  map dataset (s_dbs (replay now' (aof_log (run_tevs h)))) = map dataset (s_dbs (run_tevs h)).
-Proof. exact replay_any_time. Qed.
-(** non-vacuity: events spread over an hour in databases 0 and 2, three TTLs, a transaction
-    run an hour after it was queued, the redo a day later: hypotheses hold, twelve records, and
-    the databases are NOT equal (deadlines) although their datasets are *)
-Example c11_replay_any_time_sample :
-  forallb (fun te => ev_ok (snd te)) sample_timed = true /\
-  forallb timeless (trace_of sample_timed) = true /\
-  live_fresh (trace_of sample_timed) dbs0 = true /\
-  redo_fresh 86400000 (aof_log (run_tevs sample_timed)) (0, dbs0) = true /\
-  len (aof_log (run_tevs sample_timed)) = 12 /\
-  s_dbs (replay 86400000 (aof_log (run_tevs sample_timed))) <> s_dbs (run_tevs sample_timed).
-Proof. exact sample_timed_ok. Qed.
-
-(** Re-sending the records of the file as request frames over a fresh connection - what the
-    harness's AOFREPLAY and any external redo tool do - is [replay]: a logged name (and
-    SELECT) is never transaction control and has no blanks (checked over the generated
-    table), so each frame goes straight to process_normal_command in the database the
-    connection has selected. *)
+(** a history whose events carry no oracle needs none for the redo: [replay_o] of [trecs] is the
+    plain redo of the file *)
+Theorem c11_redo_without_oracles :
+  forall tr dbs last,
+  forallb (fun tx => match x_or (snd tx) with None => true | Some _ => false end) tr = true ->
+  trecs tr dbs last = no_oracle (map fst (trecs tr dbs last)).
+Proof. exact trecs_no_oracle. Qed.
+(** re-sending the records over a fresh connection (what the harness and any external redo tool
+    do: through process_frame, not process_normal_command) IS the redo *)
 Theorem c11_resend_is_replay :
-  forall now h, forallb (fun te => ev_ok (snd te)) h = true ->
-  resend now (aof_log (run_tevs h)) = replay now (aof_log (run_tevs h)).
+  forall now log, forallb (fun po => file_record (fst po)) log = true -> resend now log = replay_o now log.
+Proof. exact resend_is_replay. Qed.
+Theorem c11_resend_of_a_history :
+  forall now h, resend now (trecs (trace_of h) dbs0 None) = replay_o now (trecs (trace_of h) dbs0 None).
 Proof. exact history_resend. Qed.
 
-(** ---- 5. refutations: one witness per open class ---- *)
-(** expiry is not logged, TTLs are relative: SET k v PX 300 at time 0, GET k at time 600 (k is
-    gone), redo at time 600 (k is back for 300 ms).  Every command is in the domain and the redo is
-    fresh; only [live_fresh] fails - the hypothesis of the replay theorems is necessary *)
-Theorem c11_expired_unlogged_refuted :
-  map dataset (s_dbs (replay 600 (aof_log (run_tevs expired_history)))) <> map dataset (s_dbs (run_tevs expired_history)) /\
-  forallb (fun te => ev_ok (snd te)) expired_history = true /\
-  live_fresh (trace_of expired_history) dbs0 = false /\
-  redo_fresh 600 (aof_log (run_tevs expired_history)) (0, dbs0) = true.
-Proof. exact expired_diverges. Qed.
-(** random outcomes logged verbatim: two admissible outcomes, one file, two datasets *)
-Theorem c11_random_spop_refuted :
-  let s := run_tevs (hist [[bs "SADD"; bs "s"; bs "a"; bs "b"]]) in
-  let s1 := snd (process_frame 0 s 1 (cmd [bs "SPOP"; bs "s"]) (Some (FBulk (bs "a")))) in
-  let s2 := snd (process_frame 0 s 1 (cmd [bs "SPOP"; bs "s"]) (Some (FBulk (bs "b")))) in
-  aof_log s1 = aof_log s2 /\ get_db s1 0 <> get_db s2 0 /\
-  is_error (fst (process_frame 0 s 1 (cmd [bs "SPOP"; bs "s"]) (Some (FBulk (bs "a"))))) = false /\
-  is_error (fst (process_frame 0 s 1 (cmd [bs "SPOP"; bs "s"]) (Some (FBulk (bs "b"))))) = false.
-Proof. exact spop_verbatim. Qed.
-Theorem c11_random_xadd_refuted :
-  let s := run_tevs (hist []) in
-  let q := cmd [bs "XADD"; bs "x"; bs "*"; bs "f"; bs "v"] in
-  let s1 := snd (process_frame 0 s 1 q (Some (FBulk (bs "1700000000000-0")))) in
-  let s2 := snd (process_frame 0 s 1 q (Some (FBulk (bs "1700000000001-0")))) in
-  aof_log s1 = aof_log s2 /\ get_db s1 0 <> get_db s2 0 /\
-  fst (process_frame 0 s 1 q (Some (FBulk (bs "1700000000000-0")))) = FBulk (bs "1700000000000-0") /\
-  fst (process_frame 0 s 1 q (Some (FBulk (bs "1700000000001-0")))) = FBulk (bs "1700000000001-0").
-Proof. exact xadd_auto_verbatim. Qed.
-(** start-up replay executes nothing: after a restart the dataset is empty, the file is kept
-    and the engine has forgotten the database it last wrote to *)
-Theorem c11_startup_replay_noop_refuted :
-  let s := run_tevs (hist [[bs "SET"; bs "k"; bs "a"]; [bs "RPUSH"; bs "l"; bs "x"]]) in
-  get_db (restart s) 0 = empty_db /\ get_db s 0 <> empty_db /\ aof_log (restart s) = aof_log s /\
-  aof_last_db (s_aof s) = Some 0 /\ aof_last_db (s_aof (restart s)) = None.
-Proof. exact restart_loses_dataset. Qed.
+(** ---- 9. start-up ---- *)
+(** after a restart the dataset is the redo of the file, and the file is kept *)
+Theorem c11_restart_is_the_redo_of_the_file :
+  forall now s ol, s_dbs (restart_o now s ol) = s_dbs (replay_o now ol) /\ aof_log (restart_o now s ol) = aof_log s.
+Proof. exact restart_redo_and_file. Qed.
+(** hence, under the conditions of the any-time theorem, a restart at any later clock reading
+    brings every key of every database back with its value and its deadline *)
+Theorem c11_restart_recovers :
+  forall now' h,
+  forallb (fun te => ev_ok (snd te)) h = true ->
+  timed_run now' (trace_of h) dbs0 = true -> fits_run (trace_of h) dbs0 ->
+  forall i k, get_entry (nth i (s_dbs (restart_o now' (run_tevs h) (trecs (trace_of h) dbs0 None))) empty_db) k =
+              get_entry (nth i (s_dbs (run_tevs h)) empty_db) k.
+Proof. exact restart_recovers. Qed.
+
+(** ---- 10. what is still open ---- *)
+(** REFUTED without the hypothesis on the deadlines: SET k v PX 300 at 0, RENAME k j at 100,
+    PERSIST j at 200.  Live: j = v, persistent.  Redo at 600: k is set, PEXPIREAT k 300 deletes
+    it (the deadline has passed), RENAME fails, there is no j.  Every other condition of
+    [c11_replay_any_time] holds; before the deadline (redo at 250) the redo is faithful.  No DEL
+    is written when a key expires, so the file cannot tell the redo that j outlived k. *)
+Theorem c11_expiry_unlogged_refuted :
+  get_entry (nth 0 (s_dbs (run_tevs expiry_history)) empty_db) (bs "j") = Some {| e_val := VStr (bs "v"); e_exp := None |} /\
+  get_entry (nth 0 (s_dbs (replay_o 600 (trecs (trace_of expiry_history) dbs0 None))) empty_db) (bs "j") = None /\
+  forallb (fun te => ev_ok (snd te)) expiry_history = true /\
+  fits_b (trace_of expiry_history) dbs0 = true /\
+  timed_run 600 (trace_of expiry_history) dbs0 = false /\
+  timed_run 250 (trace_of expiry_history) dbs0 = true.
+Proof. exact expiry_unlogged_diverges. Qed.
+(** the same class without RENAME: SET q z EX 1 at 0, PEXPIRE q 500000 at 500; the redo at 2000
+    deletes q at its first deadline record and finds nothing to extend *)
+Theorem c11_expiry_extended_refuted :
+  get_entry (nth 0 (s_dbs (run_tevs extended_history)) empty_db) (bs "q") = Some {| e_val := VStr (bs "z"); e_exp := Some 500500 |} /\
+  get_entry (nth 0 (s_dbs (replay_o 2000 (trecs (trace_of extended_history) dbs0 None))) empty_db) (bs "q") = None /\
+  timed_run 2000 (trace_of extended_history) dbs0 = false.
+Proof. exact expiry_extended_diverges. Qed.
+
+(** ---- examples (non-vacuity) ---- *)
+(** one clock reading: formerly unlogged writers, three databases, a consumer group, a script,
+    a transaction with a queued SELECT: 15 records, and the redo equals the live server *)
+Example c11_replay_sample :
+  s_dbs (replay_o 7 (trecs (trace_of plain_history) dbs0 None)) = s_dbs (run_tevs plain_history) /\
+  len (aof_log (run_tevs plain_history)) = 15 /\
+  len (d_data (nth 0 (s_dbs (run_tevs plain_history)) empty_db)) = 4.
+Proof. exact plain_sample. Qed.
+(** clock readings over an hour, deadlines, SPOP and XADD * with their reported outcomes, a
+    served pop, a client's PEXPIREAT; redone a day later: the same values and deadlines *)
+Example c11_replay_any_time_sample :
+  (forall i k, get_entry (nth i (s_dbs (replay_o day (trecs (trace_of timed_history) dbs0 None))) empty_db) k =
+               get_entry (nth i (s_dbs (run_tevs timed_history)) empty_db) k) /\
+  len (aof_log (run_tevs timed_history)) = 22 /\
+  In [FBulk (bs "SREM"); FBulk (bs "s"); FBulk (bs "a"); FBulk (bs "c")] (aof_log (run_tevs timed_history)) /\
+  In [FBulk (bs "XADD"); FBulk (bs "x"); FBulk (bs "1800-0"); FBulk (bs "f"); FBulk (bs "v")] (aof_log (run_tevs timed_history)) /\
+  In [FBulk (bs "LPOP"); FBulk (bs "l")] (aof_log (run_tevs timed_history)) /\
+  In [FBulk (bs "PEXPIREAT"); FBulk (bs "k"); FBulk (bs "100001000")] (aof_log (run_tevs timed_history)).
+Proof. exact timed_sample. Qed.
+(** the same history recovered by a restart a day later *)
+Example c11_restart_sample :
+  forall i k, get_entry (nth i (s_dbs (restart_o day (run_tevs timed_history) (trecs (trace_of timed_history) dbs0 None))) empty_db) k =
+              get_entry (nth i (s_dbs (run_tevs timed_history)) empty_db) k.
+Proof. exact restart_sample. Qed.
